@@ -476,6 +476,27 @@ func runRLLB(x *X) {
 		}
 		x.Probe("lb-level-429")
 	}
+	// 4. odd header shapes that still name different clients: lists whose first element is empty
+	// (a front proxy appended ", <peer>" to an empty header), arriving through different peers.
+	// Whatever such a client is keyed by -- the whole value, the next element, its peer -- two of
+	// them are two clients: one spending its burst leaves the other's untouched.
+	if !x.dead && c.Intn(3, "empty-first-element") == 0 {
+		lead := []string{", ", ","}[c.Intn(2, "lead")] // (no blank before the comma: net/http's parser strips leading blanks of a value)
+		a := reqSpec{client: "10.77.0.1", xff: lead + "198.51.100.7"}
+		b := reqSpec{client: "10.77.0.2", xff: lead + "198.51.100.8"}
+		for i := 0; i < max+1 && !x.dead; i++ {
+			x.Do("req", func() { h.do(a) }, onErr)
+		}
+		for i := 0; i < max && !x.dead; i++ {
+			var r simResult
+			x.Do("req", func() { r = h.do(b) }, onErr)
+			if r.status != 200 {
+				x.Violate("C09", "C09/wrong-client-key{empty-first-element}", "a client never seen before (X-Forwarded-For %q via peer %s) got %d on request %d of its first burst after another client (%q via %s) had spent its own (max_tokens %d)", b.xff, b.client, r.status, i+1, a.xff, a.client, max)
+				break
+			}
+		}
+		x.Probe("empty-first-xff-element")
+	}
 	if left := s.Teardown(); left > 0 {
 		x.Probe("teardown-left")
 	}
